@@ -62,6 +62,7 @@ class RangeReader:
             if any(n['k'] == 'CXXMemberCallExpr' and n.get('cn') == 'erase' for n in g.all_nodes()):
                 self.rollback.add(g.fid)
         self.visits = 0
+        self.out_params = {p['id'] for p in f.params if p['type'].replace(' ', '') == 'void*&'}
         # variables whose comparisons make paths infeasible, found structurally (not by name):
         # neighbour pointers loaded from the visited border, and the key length loaded from it
         self.ptr_names = set()
@@ -93,6 +94,8 @@ class RangeReader:
         pending, chk, fs = st[0], st[1], st[2]
         if pending:
             return False, 'node data loaded after the last version check'
+        if chk is None and self.mode == 'iscan':
+            return True, ''
         if chk is None:
             return False, 'no version check of the visited border on this path'
         v = R.facts_get(fs, chk)
@@ -109,6 +112,7 @@ class RangeReader:
         def mk(g):
             def step(ctx, n, st):
                 pending, chk, fs, pushed, nbr, vp, vpok = st
+                fs_before = fs
                 fs = R.track_assign(g, n, fs, facts, tracked_types=(is_status,))
                 k = n['k']
                 if k in CALL_KINDS:
@@ -146,7 +150,7 @@ class RangeReader:
                             if var:
                                 nbr = frozenset(x for x in nbr if x[0] != var) | {(var, 'loaded', 'of:' + rv)}
                             return (pending, chk, fs, pushed, nbr, vp, vpok)
-                    if me.mode == 'scan' and k == 'CXXOperatorCallExpr' and n.get('cn') == 'operator=' and \
+                    if k == 'CXXOperatorCallExpr' and n.get('cn') == 'operator=' and \
                             n.get('mcls') == 'yakushima::node_version64_body':
                         a = [g.node(x) for x in n.get('args', [])]
                         l = g.strip(a[0]) if a else None
@@ -168,7 +172,7 @@ class RangeReader:
                                any(x['k'] == 'DeclRefExpr' and x.get('name') == 'child' for a in call_args(g, n)[:1]
                                    for x in g.walk(a)))
                     if is_push or is_desc:
-                        ok, why = me.covered_ok((pending, chk, fs))
+                        ok, why = me.covered_ok((pending, chk, fs_before))
                         me._site('push', ('push value' if is_push else 'descent into next layer') + ' at ' + short_loc(n),
                                  n, ok, why, ctx)
                         if is_push:
@@ -178,7 +182,8 @@ class RangeReader:
                     return (pending, chk, fs, pushed, nbr, vp, vpok)
                 if me.mode == 'iscan' and k == 'BinaryOperator' and n.get('op') == '=':
                     lhs = g.strip(g.ch(n)[0])
-                    if lhs is not None and lhs['k'] == 'DeclRefExpr' and lhs.get('name') == 'out':
+                    if lhs is not None and lhs['k'] == 'DeclRefExpr' and lhs.get('dk') == 'parm' and \
+                            (lhs.get('ty') or '') == 'void *' and lhs.get('id') in me.out_params:
                         ok, why = me.covered_ok((pending, chk, fs))
                         me._site('push', 'yield value at ' + short_loc(n), n, ok, why, ctx)
                         me._site('rv', 'yield value at ' + short_loc(n), n, vpok or me.perm_visible,
@@ -226,6 +231,10 @@ class RangeReader:
                     flip, shape = R.cond_shape(g, blk.term['cond'])
                     if shape[0] == 'nonnull' and shape[1] == vp and ((idx == 0) != flip):
                         vpok = True
+                if blk.term and blk.term.get('k') == 'GotoStmt' and me.mode == 'iscan' and \
+                        (blk.term.get('label') or '') in ('retry_from_root', 'next_layer'):
+                    # the cursor re-positions itself: a new visit starts, nothing read so far is used
+                    return (False, None, fs2, False, frozenset(), None, False)
                 # retry edges by goto: what this visit pushed must have been rolled back
                 if blk.term and blk.term.get('k') == 'GotoStmt' and me.mode == 'scan' and \
                         (blk.term.get('label') or '').startswith('retry'):
